@@ -215,8 +215,13 @@ def main(argv=None):
             incon.append(o)
     meta["known_reported"] = known_lines
     write_evidence(prop, tier, seed, outs, time.time() - t0, meta)
+    seen_reasons = set()
     for o in outs:
-        log(f"  [{o.status:12}] {o.oid} ({o.engine}, {o.solver_s:.1f}s, {o.queries} queries) {o.reason if o.status != 'holds' else ''}")
+        why = "" if o.status == "holds" else o.reason[:240]
+        if why in seen_reasons and len(why) > 80:
+            why = "(same reason as above)"
+        seen_reasons.add(why)
+        log(f"  [{o.status:12}] {o.oid} ({o.engine}, {o.solver_s:.1f}s, {o.queries} queries) {why}")
     for l in sorted(set(known_lines)):
         print(l)
     if violations:
@@ -224,8 +229,7 @@ def main(argv=None):
             print(f"VIOLATION property={prop} replay={o.replay_path} obligation={o.oid} {o.reason}")
         return EXIT_VIOLATION
     if incon:
-        for o in incon:
-            print(f"INCONCLUSIVE property={prop} obligation={o.oid}: {o.reason}")
+        print(f"INCONCLUSIVE property={prop} obligations={','.join(o.oid for o in incon)}: {incon[0].reason[:300]}")
         return EXIT_INCONCLUSIVE
     print(f"OK property={prop} tier={tier} obligations={len(outs)} wall={time.time() - t0:.0f}s")
     return EXIT_OK
